@@ -3,6 +3,7 @@ package main
 import (
 	"bufio"
 	"bytes"
+	"errors"
 	"fmt"
 	"io"
 	"net"
@@ -584,6 +585,8 @@ func decode(what string, b []byte) string {
 		return p.String() + " " + rest(r)
 	case "ua":
 		return uaDecode(b)
+	case "xst":
+		return xstDecode(b)
 	}
 	return "bad-op"
 }
@@ -668,24 +671,102 @@ func muxers() {
 // not the reader's doing and is kept out of the measurement)
 var uaAlloc uint64
 
-func uaDecode(b []byte) string {
+// tubePair opens a fresh reliable tube between the two muxers (ct: the client muxer's end)
+func tubePair(ty tubes.TubeType) (ct, st *tubes.Reliable, problem string) {
 	muxers()
-	uaAlloc = 0
-	ct, err := muxC.CreateReliableTube(common.UserAuthTube)
+	ct, err := muxC.CreateReliableTube(ty)
 	for k := 0; err != nil && k < 400; k++ { // tube ids are reusable 4 RTT after a tube has closed
 		time.Sleep(50 * time.Millisecond)
-		ct, err = muxC.CreateReliableTube(common.UserAuthTube)
+		ct, err = muxC.CreateReliableTube(ty)
 	}
 	if err != nil {
-		return "harness-error-create"
+		return nil, nil, "harness-error-create"
 	}
 	t, err := muxS.Accept()
 	if err != nil {
-		return "harness-error-accept"
+		return nil, nil, "harness-error-accept"
 	}
 	st, ok := t.(*tubes.Reliable)
 	if !ok {
-		return "harness-error-type"
+		return nil, nil, "harness-error-type"
+	}
+	return ct, st, ""
+}
+
+// xstDecode writes b into a fresh exec tube, closes the writing side and lets the real
+// codex.getStatus (verif hook) read the other end: `conf` or `fail:<text>`, then what it left unread
+func xstDecode(b []byte) string {
+	uaAlloc = 0
+	ct, st, problem := tubePair(common.ExecTube)
+	if problem != "" {
+		return problem
+	}
+	go func() {
+		if len(b) > 0 {
+			ct.Write(b)
+		}
+		ct.Close()
+	}()
+	res := make(chan string, 1)
+	go func() {
+		res <- Guard(func() string {
+			var m0, m1 runtime.MemStats
+			runtime.ReadMemStats(&m0)
+			err := codex.VerifGetStatus(st)
+			runtime.ReadMemStats(&m1)
+			uaAlloc = m1.TotalAlloc - m0.TotalAlloc
+			r, _ := io.ReadAll(st)
+			if err == nil {
+				return "conf " + HexOrDash(r)
+			}
+			return "fail:" + HexOrDash([]byte(err.Error())) + " " + HexOrDash(r)
+		})
+	}()
+	var out string
+	select {
+	case out = <-res:
+	case <-time.After(60 * time.Second):
+		out = "harness-timeout"
+	}
+	st.Close()
+	return out
+}
+
+// xstEncode lets the real codex.SendSuccess / SendFailure write into a tube and returns the bytes
+// that arrive at the other end
+func xstEncode(conf bool, msg []byte) string {
+	ct, st, problem := tubePair(common.ExecTube)
+	if problem != "" {
+		return problem
+	}
+	go func() {
+		if conf {
+			codex.SendSuccess(ct)
+		} else {
+			codex.SendFailure(ct, errors.New(string(msg)))
+		}
+		ct.Close()
+	}()
+	res := make(chan string, 1)
+	go func() {
+		r, _ := io.ReadAll(st)
+		res <- HexOrDash(r)
+	}()
+	var out string
+	select {
+	case out = <-res:
+	case <-time.After(60 * time.Second):
+		out = "harness-timeout"
+	}
+	st.Close()
+	return out
+}
+
+func uaDecode(b []byte) string {
+	uaAlloc = 0
+	ct, st, problem := tubePair(common.UserAuthTube)
+	if problem != "" {
+		return problem
 	}
 	go func() {
 		if len(b) > 0 {
@@ -723,7 +804,7 @@ func allocClass(what string, f func() string) string {
 	r := Guard(f)
 	runtime.ReadMemStats(&b)
 	d := b.TotalAlloc - a.TotalAlloc
-	if what == "ua" {
+	if what == "ua" || what == "xst" {
 		d = uaAlloc
 	}
 	cls := "small"
@@ -758,7 +839,7 @@ func runOp(f []string) string {
 		}
 		b, ok := Unhex(a[1])
 		switch a[0] {
-		case "str", "intent", "ag", "cert", "exec", "ua", "pf":
+		case "str", "intent", "ag", "cert", "exec", "ua", "pf", "xst":
 		default:
 			ok = false
 		}
@@ -785,6 +866,15 @@ func runOp(f []string) string {
 		return Guard(func() string { return decode(what, b) })
 	}
 	switch op {
+	case "xst-enc":
+		if len(a) == 1 && a[0] == "conf" {
+			return xstEncode(true, nil)
+		}
+		if len(a) == 2 && a[0] == "fail" {
+			if m, ok := Unhex(a[1]); ok {
+				return xstEncode(false, m)
+			}
+		}
 	case "str-enc":
 		if s, ok := Unhex(a[0]); ok && len(a) == 1 {
 			return writerTo(strWriter(s))
